@@ -18,7 +18,7 @@ L = {
  'C12': ('each row of the real monitor table compared column by column with the harness beginning-of-timestep snapshot and ledger', '4/C12'),
  'C13': ('life-cycle transitions derived from snapshots/spawn log compared with monitor.events (count, time, causal order), also on paused runs', '4/C13'),
  'C14': ('plan read at hand-over to the scheduler inside simulated runs and compared with the generated DAG (ids, demands, edges, volumes, order, queries), earlier plans re-queried after every later plan, direct planner calls at equal and repeated clocks', '4/C14'),
- 'C15': ('seeded sweep of the real DelayModel (all distributions/degrees/probabilities/runtimes incl. 0; same-process and fresh-process determinism) other models evaluated in between, the same object asked again, numpy integer seeds) and flag/status propagation in simulations with injected and real delays', '4/C15'),
+ 'C15': ('seeded sweep of the real DelayModel (all distributions/degrees/probabilities/runtimes incl. 0; same-process and fresh-process determinism, other models evaluated in between, the same object asked again, numpy integer seeds) and flag/status propagation in simulations with injected and real delays', '4/C15'),
  'C16': ('paired simulations of one physical configuration under unit k and under seconds: parsed initial state and trajectories (volumes, rate-limit outcome, task runtimes in seconds) must agree; Config.parse_* called directly, twice on one object', '4/C16'),
  'C17': ('every execution compared with the machine recorded when the static plan became visible; contention from ingest and concurrent workflows, delays, stalls, permutations', '4/C17'),
  'C18': ('Buffer op-machine following every step of every move against a two-tier reference model (both directions, either tier slower, no-room refusals, round trips); moves observed in full simulations', '4/C18'),
